@@ -243,6 +243,7 @@ PROPS = {
             T("TestC17Climit", "conc", 400, 48000, shards=16, qshards=2, race=True, gomaxprocs=[4, 2, 1, 16]),
             T("TestC17Storage", "conc", 600, 48000, shards=8, qshards=2, race=True, gomaxprocs=[4, 2, 1, 16]),
             T("TestC17Instance", "conc", 240, 24000, shards=16, qshards=4, race=True, gomaxprocs=[4, 2, 8, 16]),
+            T("TestC17Cleaner", "conc", 240, 24000, shards=16, qshards=4, race=True, gomaxprocs=[4, 2, 8, 16]),
             # the receiver harness of C16 (several instances, limits 1-3, supersession, log-line pauses) under the race
             # detector: a wedged receiver (Next() not returning, downloaders blocked for good) is this property's business too
             T("TestC16Receiver", "recv", 160, 16000, shards=16, qshards=4, race=True, gomaxprocs=[4, 2, 8, 16]),
